@@ -88,6 +88,39 @@ fn deep_chain(len: u16, out: &mut Outcome) {
     out.label("deep-dependency-chain");
 }
 
+/// Threads call hot_reload while another thread switches the ('static) cache to enhance_hot_reloading, at a swept
+/// instant: every call returns ("subsequent calls to hot_reload have no effect" - they still return). The caches
+/// are leaked, as a 'static cache is; their reloaders sleep once the trial is over.
+fn enhance_races(trials: u8, callers: u8) {
+    use crate::memsrc::MemSource;
+    use assets_manager::AssetCache;
+    for trial in 0..trials as u64 {
+        let src = MemSource::new(true);
+        src.tree().put("a", "v", b"1".to_vec(), Variant::Buffer);
+        let cache: &'static AssetCache<MemSource> = Box::leak(Box::new(AssetCache::with_source(src.handle())));
+        let _ = cache.load::<crate::props::common::Ver>("a");
+        let go = AtomicBool::new(false);
+        std::thread::scope(|s| {
+            for _ in 0..callers {
+                s.spawn(|| {
+                    while !go.load(SeqCst) {
+                        std::hint::spin_loop();
+                    }
+                    for _ in 0..60 {
+                        cache.hot_reload();
+                    }
+                });
+            }
+            go.store(true, SeqCst);
+            for _ in 0..(trial * 37) % 600 {
+                std::hint::spin_loop();
+            }
+            cache.enhance_hot_reloading();
+            // a caller that is never answered blocks here for good: the blocked-state detector reports it
+        });
+    }
+}
+
 /// One hot_reload call against `producers` threads flooding the event channel. Progress is counted in events
 /// sent, not in time: the call must be back before the producers have sent `LIMIT` more events.
 fn flood(producers: u8, out: &mut Outcome) {
@@ -254,7 +287,7 @@ impl Prop for C08 {
     fn rule(&self) -> String {
         "cases = (1..6 compound nodes whose recipes load leaves and get_cached ANY node - themselves and each other, so that look-up cycles of every length arise - with generated busy work in the loader; \
          1..8 threads each calling hot_reload 20..300 times; 0..3 threads loading and inserting concurrently; bursts of notified edits (single or batched) sent meanwhile; optionally a node that after a rewrite loads 100..1500 never-seen assets within one reload; in a fifth of the cases the source drops its event sender after 0..3 rounds (a watcher that dies: the reloader thread ends and the remaining calls must degrade to no-ops); in a third of the cases 100..600 notifications of one leaf are then sent back to back while one caller keeps calling (one call = one pass: the leaf is read at most once per call); in a quarter 100..500 rounds of {fresh cache whose reloader is parked in the destructor of its source after the sender was dropped, then released at a swept instant against 2..6 callers entering hot_reload}; in a sixth one hot_reload call against 3..6 threads flooding the event channel (the call must be back before 5 million more notifications were sent). \
-         Oracle: every call returns (the supervisor's blocked-state detector: all threads asleep with zero CPU while the case is unfinished = deadlock; never a timeout), the process does not abort (worker exit status), \
+         in one case in twelve 2..4 threads call hot_reload on a leaked ('static) cache while another thread calls enhance_hot_reloading at a swept instant (6 trials); Oracle: every call returns (the supervisor's blocked-state detector: all threads asleep with zero CPU while the case is unfinished = deadlock; never a timeout), the process does not abort (worker exit status), \
          and the reloader never loads or reads while no thread is inside hot_reload (a caller released by somebody else's answer leaves its own request to be served later), and after all callers returned a freshly notified change is still applied within 4000 calls (unless the watcher died). \
          non-trivial = at least two hot_reload requests were in flight at once, or a look-up cycle received an event; distinct = different canonical JSON"
             .into()
@@ -568,6 +601,10 @@ impl Prop for C08 {
         if c.chain > 0 && !out.failed() {
             deep_chain(c.chain, &mut out);
         }
+        if c.chain % 2 == 1 && !out.failed() {
+            enhance_races(6, 2 + (c.callers % 3));
+            out.label("hot_reload-races-enhance_hot_reloading");
+        }
         if c.stop_races > 0 && !out.failed() {
             stop_races(c.stop_races, 2 + (c.callers % 5));
             out.label("reloader-stops-under-callers");
@@ -576,6 +613,6 @@ impl Prop for C08 {
     }
 
     fn required_labels(&self) -> Vec<&'static str> {
-        vec!["requests-queued>=2", "lookup-cycle", "concurrent-loaders", "watcher-died-while-callers-run", "sustained-notification-stream", "reloader-stops-under-callers", "notification-flood", "deep-dependency-chain"]
+        vec!["requests-queued>=2", "lookup-cycle", "concurrent-loaders", "watcher-died-while-callers-run", "sustained-notification-stream", "reloader-stops-under-callers", "notification-flood", "deep-dependency-chain", "hot_reload-races-enhance_hot_reloading"]
     }
 }
